@@ -6,6 +6,7 @@ import (
 	"strings"
 
 	"github.com/opsidian/parsley/ast"
+	"github.com/opsidian/parsley/combinator"
 	"github.com/opsidian/parsley/data"
 	"github.com/opsidian/parsley/parser"
 	"github.com/opsidian/parsley/parsley"
@@ -36,7 +37,7 @@ var (
 // which Go's append leaves spare capacity) and roots built only from the combinators that consume
 // such a list (Any, Optional, SeqOf). Several consumers at one position, each appending something
 // different, is the history in which sharing of the cached list's backing array becomes visible.
-var consumers = gram.Alphabet{Name: "consumers", Terminals: []byte{'a', 'b'}, Unary: []gram.Kind{gram.Opt}, Binary: []gram.Kind{gram.Any, gram.Seq}, Ternary: []gram.Kind{gram.Any}}
+var consumers = gram.Alphabet{Name: "consumers", Terminals: []byte{'a', 'b'}, Unary: []gram.Kind{gram.Opt, gram.Single}, Binary: []gram.Kind{gram.Any, gram.Seq}, Ternary: []gram.Kind{gram.Any}}
 
 func mustExpr(s string) *gram.Expr {
 	g, err := gram.Parse("N0=" + s)
@@ -48,7 +49,7 @@ func mustExpr(s string) *gram.Expr {
 
 func consumerSpaces(maxRoot int) []spaceSpec {
 	var out []spaceSpec
-	for _, body := range []string{"(any a a a)", "(any a (seq a a) (seq a a a))", "(any a a a a a)"} {
+	for _, body := range []string{"(any a a a)", "(any a (seq a a) (seq a a a))", "(any a a a a a)", "(any (seq a) (seq a b) a)"} {
 		out = append(out, spaceSpec{sp: &gram.Space{Name: "consumers of S0!=" + body, Alpha: consumers, HasRoot: true, Min: 2, Max: maxRoot,
 			FixedShared: []*gram.Expr{mustExpr(body)}, FixedSharedMemo: []bool{true}}, maxLen: 3, alpha: []byte{'a', 'b'}, noSubsets: true})
 	}
@@ -322,12 +323,28 @@ func c07Build(res *explore.Result, g *gram.Grammar, inputs [][]byte, verbose boo
 	b.Mon.OnReturn = mon.onReturn
 	explosiveFrom := -1
 	reported := map[string]bool{}
+	// the same grammar object is used for every input: results of EARLIER parses must not change either
+	sentence := combinator.Sentence(b.Root)
+	sentenceExpr := &gram.Expr{K: gram.Seq, ID: 1 << 20, Kids: []*gram.Expr{g.Body(rootExpr(g)), {K: gram.End}}}
+	var earlier []*snap
+	var history []string
+	keepEarlier := func() {
+		for _, sn := range mon.snaps {
+			sn.full = renderFull(sn.live) // as it reads at the end of its own parse
+		}
+		earlier = append(earlier, mon.snaps...)
+		if len(earlier) > 400 {
+			earlier = earlier[len(earlier)-400:]
+		}
+		mon.snaps = nil
+	}
 	for _, w := range inputs {
 		if explosiveFrom >= 0 && len(w) >= explosiveFrom {
 			res.Add("cases_skipped_after_meter_tripped", 1)
 			continue
 		}
-		c := Case{Prior: b.MemoBefore, Grammar: gs, Input: string(w)}
+		c := Case{Prior: b.MemoBefore, Grammar: gs, Input: string(w), History: append([]string{}, history...)}
+		history = append(history, string(w))
 		run := func(blame bool) (impl.Outcome, *c07Finding) {
 			ctx, r, _ := impl.NewContext(w)
 			b.Mon.Reset()
@@ -335,10 +352,34 @@ func c07Build(res *explore.Result, g *gram.Grammar, inputs [][]byte, verbose boo
 			o := b.Run(ctx, b.Root, r.Pos(0))
 			if o.Panic == "" && o.Depth == "" && o.Budget == "" {
 				mon.checkAll(nil) // end of parse: every returned object reads as at return time
+				if !blame && mon.found == nil {
+					// once more under Sentence (an EOF-terminated sequence around the root); its result is recorded too
+					ctx2, r2, _ := impl.NewContext(w)
+					o2 := b.Run(ctx2, sentence, r2.Pos(0))
+					if o2.Panic == "" && o2.Depth == "" && o2.Budget == "" {
+						mon.record(sentenceExpr, 0, o2.Node, nil)
+						mon.checkAll(nil)
+					}
+				}
 			}
 			return o, mon.found
 		}
 		o, f := run(false)
+		if f == nil && o.Budget == "" && o.Panic == "" && o.Depth == "" {
+			// results of earlier parses with this grammar object
+			for _, sn := range earlier {
+				if now := renderFull(sn.live); now != sn.full {
+					key := "mutator=later-parse;field=content;object=result-of-an-earlier-parse"
+					what := fmt.Sprintf("%s: a result of an EARLIER parse with the same grammar object (%s, returned by %s) reads %s after this parse", c, sn.full, sn.firstBy, now)
+					if !reported[key] || verbose {
+						reported[key] = true
+						res.Violate(key, what, c)
+					}
+					sn.full = now
+					break
+				}
+			}
+		}
 		res.Add("states", 1)
 		res.Add("transitions", b.Mon.Calls)
 		res.Add("traces", 1)
@@ -366,6 +407,7 @@ func c07Build(res *explore.Result, g *gram.Grammar, inputs [][]byte, verbose boo
 			if verbose {
 				res.Notes = append(res.Notes, fmt.Sprintf("%d object(s) snapshotted, all unchanged at the end of the parse", len(mon.snaps)))
 			}
+			keepEarlier()
 			continue
 		}
 		// something changed: blame mode names the mutator
@@ -387,6 +429,13 @@ func c07Build(res *explore.Result, g *gram.Grammar, inputs [][]byte, verbose boo
 			res.Add("further_cases_same_key_same_grammar", 1)
 		}
 	}
+}
+
+func rootExpr(g *gram.Grammar) *gram.Expr {
+	if g.Root != nil {
+		return g.Root
+	}
+	return g.NTs[0]
 }
 
 func exprOrEnd(e *gram.Expr) string {
@@ -438,7 +487,11 @@ func c07Replay(raw json.RawMessage) *explore.Result {
 		return res
 	}
 	res.Notes = append(res.Notes, "case: "+c.String())
-	c07Grammar(res, g, [][]byte{[]byte(c.Input)}, false, true)
+	var inputs [][]byte
+	for _, h := range c.History {
+		inputs = append(inputs, []byte(h))
+	}
+	c07Grammar(res, g, append(inputs, []byte(c.Input)), false, true)
 	return res
 }
 
